@@ -13,6 +13,8 @@ COMMON_TRUSTED_BASE = [
     "Go runtime and standard library (strconv, regexp, sort, reflect, unicode, math, time), cgo timelib, amd64 float->int conversion; Lean Float = IEEE binary64 for + - * / and pow",
     "Go's regexp is assumed to compute the leftmost-first reference semantics of Yae/Spec/Regex.lean on the lexer's twelve expressions (tied by the regex cases of the lex stream); the pattern texts themselves are read from the Go source on every run",
     "the source-derived inventories (shared write sites, panic guards, lexer patterns) are go/ast scans of named files; the call structure behind C12.contained_partial is hand-modelled",
+    "the line-protocol driver (lean/Yae/Driver*, S-expression codecs on both sides) transports requests and answers and is not verified; a codec error shows as a disagreement, never as agreement, because the two sides encode independently",
+    "the engine object (lean/Yae/Model/Engine.lean) models facade.go's Expr as far as registrations, operator registrations, compiler choice, UseBuiltIn, Compile and invocation go; user translators, the debug writer, function tables of the environments themselves and whatever a real host function does besides returning its value are outside the model",
 ]
 
 TECH = "Lean 4 theorems over an executable model + model/implementation correspondence + regenerated tables"
